@@ -133,10 +133,20 @@ def parseAggImpl (s : String) : Option (Option (Option (List File) × Option (Li
     else none
   | _ => none
 
+/-- did `log.Panicf` fire while one of the intermediate aggregates was truncated? (a cut chunk can be dropped again
+    by a later truncation, so the final aggregate does not show it) -/
+def aggPanics (D M : Nat) (chunk : Bool) (batches : List (List File)) : Bool :=
+  let rec go (agg : Option (List File)) : List (List File) → Bool
+    | [] => false
+    | b :: bs =>
+      let a := collectSend D M chunk agg b
+      anyBad (a.getD []) || go a bs
+  go none batches
+
 def handleAgg (D M : Nat) (chunk : Bool) (ctx : Nat) (batches : List (List File)) (impl : String) : String :=
   let lim := collect D M chunk batches
   let unl := collect 0 0 chunk batches
-  let model := if anyBad (lim.getD []) then "panic" else s!"lim={showOptFiles lim} unl={showOptFiles unl}"
+  let model := if aggPanics D M chunk batches then "panic" else s!"lim={showOptFiles lim} unl={showOptFiles unl}"
   match parseAggImpl impl with
   | none => badCase "impl output"
   | some none => if wfFiles chunk batches.flatten then specFail model "panic" else answer model
